@@ -24,7 +24,7 @@ def writer_cfg(kind: str, *, depth=2, events=5, attrs=1, indents="{FALSE}", maps
     pol = _consts(writer_variant())
     if kind == "trace":
         return f"SPECIFICATION TSpecR\nCONSTANTS\n{pol}\nCONSTRAINT Progress\nPOSTCONDITION Accepted\nCHECK_DEADLOCK FALSE\n"
-    maps = maps or "{1,2,3,4,5,6,7,8,9,10,11,12}"
+    maps = maps or "{1,2,3,4,5,6,7,8,9,10,11,12,13,14}"
     tol = "{" + ", ".join(f'"{t}"' for t in tolerated) + "}"
     head = (
         f"SPECIFICATION Spec\nCONSTANTS\n{pol}\n  MaxDepth = {depth}\n  MaxEvents = {events}\n  MaxAttrs = {attrs}\n"
